@@ -448,8 +448,8 @@ _RESOLVE_CACHE = {}
 
 
 def _resolve_label(path, key):
-    """id of the fragment a bold-face label names, from the drawing alone; None when the drawing is ambiguous (label drawn twice,
-    two candidate fragments at practically the same distance, label inside a group that also holds its fragment: grouped pairs are
+    """id of the fragment a bold-face label names, from the drawing alone (a label drawn twice names what its FIRST occurrence names, as molli's
+    warning promises); None when the drawing is ambiguous (two candidate fragments at practically the same distance, label inside a group that also holds its fragment: grouped pairs are
     a separate rule of the format)"""
     st_ = os.stat(path)
     ck = (path, st_.st_mtime_ns, st_.st_size)
@@ -472,8 +472,7 @@ def _resolve_label(path, key):
                 continue
             lbl = ss[0].text
             if lbl in seen:
-                table[lbl] = None
-                continue
+                continue      # a label drawn twice: "Only the first occurrence will be kept" (molli's own warning text) - first in page order
             seen.add(lbl)
             lx, ly = pos(t)
             cands = sorted((abs(pos(f)[0] - lx) + abs(pos(f)[1] - ly), f.get("id")) for f in frs if pos(f)[1] < ly)
